@@ -220,6 +220,13 @@ _install_cov_rules()
 
 def install(reg, src):
     from .analysis_c import setup_node
+    for prop_ in ("C01", "C03", "C19"):
+        reg.bounded_checks.setdefault(prop_, []).append({
+            "name": "numpy-model", "script": "numpy_model_check.py", "timeout": 300,
+            "bound": "300 (quick) / 5000 (thorough) seeded random arrays of length 1..6 per table entry",
+            "why": "assumption A2: the closed-form statements the executor uses for NumPy calls (sum, dot, norm, power, gather, "
+                   "scatter, clip, reshape, array construction, diag, nan_to_num, reductions over inf/nan) are sampled against "
+                   "the installed NumPy; the table itself is assumed"})
     cases = compile_cases(src)
     hashok = hashable_kinds(src)
 
